@@ -120,7 +120,7 @@ def check(case, r):
                 a['class'] = 'close_inside_connection_requested'
     if out and (overlapping(r['log']) or dispatcher_in_flight_at_disconnect(r['log'])):
         for a in out:
-            if a['class'] not in ('link_error_from_sending_thread_wedges',):
+            if a['class'] not in ('link_error_from_sending_thread_wedges', 'fully_connected_on_cleared_table'):
                 a['detail'] = {'original_class': a['class'], 'detail': a['detail']}
                 a['class'] = 'overlapping_transitions'
     return out
@@ -170,10 +170,20 @@ def _check(case, r):
                 out.append({'class': 'connection_lost_without_disconnected', 'detail': {'attempt': k, 'segment': seg}})
     # ---- connected only once both tables are complete, fully_connected only once every parameter has a value
     want_log, want_par = cfg.get('n_log', 3), cfg.get('n_param', 2)
+    seen_disc = False          # a disconnected has been delivered in the current attempt
     for e in log:
+        if e[0] == 'cb' and e[1] == 'connection_requested':
+            seen_disc = False
+        elif e[0] == 'cb' and e[1] == 'disconnected':
+            seen_disc = True
         if e[0] == 'cb' and e[1] in ('connected', 'fully_connected') and len(e) > 4:
             c = e[4]
-            if 'error' in c or (c['n_log'], c['n_param']) != (want_log, want_par):
+            if e[1] == 'fully_connected' and seen_disc and 'error' not in c and c['n_param'] == 0 and want_par > 0:
+                # fully_connected signalled, after the attempt's own disconnected, on the parameter table that this
+                # disconnect has just cleared: "every parameter has a value" holds vacuously.  At the scheduler's granularity the unchanged code never does this (it tests
+                # the link right before it reads the table), so it is not part of known finding F02c
+                out.append({'class': 'fully_connected_on_cleared_table', 'detail': {'seen': c, 'device': [want_log, want_par]}})
+            elif 'error' in c or (c['n_log'], c['n_param']) != (want_log, want_par):
                 out.append({'class': 'connected_with_incomplete_tables', 'detail': {'callback': e[1], 'seen': c,
                                                                                   'device': [want_log, want_par]}})
             elif e[1] == 'fully_connected' and c['params_without_value']:
